@@ -22,7 +22,7 @@ CHECKS = {
          'configuration product (storage knobs x engines) over exhaustively enumerated sparse program families vs a reference machine incl. final memory',
          'Every program of a two-segment family whose far segment sits at page edges, page-cache aliases, the flat-window '
          'edge, 2^40/2^57 and the top of the address space, the w=64 fill-constant family a slice of the single-segment images, ops exactly at / after the input bit, '
-         'images and chains through 33..131 scattered 16K-word pages (page-table growth, cache-slot pressure), run under every storage configuration (flat, hybrid windows cut at every word around each boundary, forced '
+         'images and chains through 33..131 scattered 16K-word pages (page-table growth, cache-slot pressure; also with a second segment in every page and segment tables in three non-ascending orders), run under every storage configuration (flat, hybrid windows cut at every word around each boundary, forced '
          'paged, env window, measurement loop, ring lengths 1/2/3/65) and every engine; cause, op count, fault address, IO '
          'calls, last-ops list and the final content of every touched in-segment word must equal the reference machine.',
          'Trusts R1; explicit flat windows are capped at 2^24 words; ops straddling bit 2^64 at w=64 are excluded here '
@@ -56,14 +56,14 @@ CHECKS = {
          'on 11 engine/storage modes: returned values, later program behaviour and final memory must equal R1 extended with the '
          'documented DeviceMemory semantics. The screen decoder is searched at byte level (every byte string to depth 8/9) and at '
          'command level (all sequences of up to 3/4 commands over ~60 commands, and all mode-switch streams of up to 5/6 commands over 3 modes, 2 palettes and 4 presenters) against a model written from the docstring; the '
-         'two repository screen programs and a third one that flips pixels and palette bytes between presents must present identical frames on every mode, incl. hybrid storage whose flat window ends inside the framebuffer / the palette.',
+         'the model streams also contain steps in which the program rewrites the palette / the framebuffer in place between two device commands; two repository screen programs and a third one that flips pixels and palette bytes between presents must present identical frames on every mode, incl. hybrid storage whose flat window ends inside the framebuffer / the palette.',
          'Device accesses outside segments, screens larger than 64 pixels and behaviour after a rejected stream are outside the bound.',
          'DESIGN.md section 3 C19'),
  'C06': ('exploration',
          'exhaustive enumeration of Writer call sequences over an edge alphabet x width x version x preset, read back and compared with a format model',
          'All single-segment call sequences (10 starts x 11 data lists x 6 data-range kinds x 9 lengths around the dense/lazy '
          'threshold), all two-segment sequences over a collision alphabet (adjacent / overlapping / same / before / far; shared, '
-         'partially overlapping and out-of-pool data ranges) and three-segment sequences (incl. non-ascending orders: a high first segment, a lower or far second one, a third placed relative to the FIRST), at w=8/16/32/64 and versions 0-3 (lzma '
+         'partially overlapping and out-of-pool data ranges) and three-segment sequences; every two-segment sequence also with the file written two / three times by the same writer (incl. non-ascending orders: a high first segment, a lower or far second one, a third placed relative to the FIRST), at w=8/16/32/64 and versions 0-3 (lzma '
          'presets 0/6/9): accepted => the Reader loads exactly the denoted image (every data word, zero tails probed at the '
          'threshold edges, neighbours invalid) and all versions give the same image; unrepresentable => FlipJumpWriteFjmException, '
          'never a raw exception, a refused file or a differently loaded one; a rejected call leaves no trace (the sequence continues after it); a call the format can represent is never accepted by one version and refused by another in the same writer state; data-less segments at every position. Assembled stl programs are compared across versions and '
@@ -82,8 +82,8 @@ CHECKS = {
          'DESIGN.md section 3 C10'),
  'C02': ('exploration',
          'exhaustive enumeration of primitive-statement sequences x width x version vs a denotational assembler model with a behavioural wflip chain walker',
-         'All sequences of up to 3 statements over 42 shapes (ops over literals, string / char literals with hex escapes, chained conditionals, backward/forward labels, $, constants, label+-k*w, jump words and return addresses that do not fit, negative wflip values, unary-minus precedence; '
-         'ten wflip forms forcing shared / unshared chains, three-operand wflips with $ in exactly one operand; pad 1/2/4; seven segment placements (incl. one that leaves room for exactly two ops below 2^w); four reserves), depth 4 over a '
+         'All sequences of up to 3 statements over 44 shapes (ops over literals, string / char literals with hex escapes, chained conditionals, backward/forward labels, $, constants, label+-k*w, jump words and return addresses that do not fit, negative wflip values, unary-minus precedence; '
+         'ten wflip forms forcing shared / unshared chains, three-operand wflips with $ in exactly one operand; pad 1/2/4; seven segment placements (incl. one that leaves room for exactly two ops below 2^w); six reserves incl. a zero and a negative one), depth 4 over a '
          '12-shape core and depth 5 over a 6-shape core (all of depth 4 in thorough), at w=8/16/32/64 and fjm versions: if the '
          'layout is possible the program must assemble and every statement word, label, reserved range and segment must match '
          'the two-pass denotation, and every wflip chain is executed out of the image (flips exactly the set bits, once each, '
@@ -156,7 +156,7 @@ CHECKS = {
  'C08': ('model_checking',
          'explicit-state search over pointer targets x previous targets x cell/value alphabets for every pointer macro; all bounded push/pop sequences vs a list model; all bounded call trees',
          '32 hex pointer macro forms (read/write/xor/zero of hexes and bytes, 1- and 2-cell forms, *_and_inc, ptr_inc/dec/add/sub, '
-         'ptr_index and read_nth/write_nth with negative indices, ptr_flip, ptr_flip_dbit, ptr_wflip, ptr_wflip_2nd_word, ptr_jump; pointer arithmetic also over boundary pointer values without dereference) at '
+         'ptr_index and read_nth/write_nth with negative indices, indexed reads into their own index variable, ptr_flip, ptr_flip_dbit, ptr_wflip, ptr_wflip_2nd_word, ptr_jump; pointer arithmetic also over boundary pointer values without dereference) at '
          'w=64/32 (plus ptr_flip through the address of a data bit, and every ordered PAIR of the 33 forms back to back: the second starts with the shared pointer registers as the first left them) and 8 bit-namespace pointer macros at w=64/32/16, over all 64 ordered (previous target, target) pairs of an 8-cell '
          'fenced buffer x cell and value alphabets (all 256 values of the pointed cell on a short target chain; the buffer straddles a 0x10000-bit carry boundary of pointer arithmetic): exactly the pointed cell / destination changes (whole-image frame invariant, guard '
          'cells, every other variable) and to_flip / to_jump mirror their _var copies. Stack (declared capacity = the deepest explored depth, so it gets exactly full): every sequence of <= 4 (6 thorough) '
@@ -188,10 +188,10 @@ CHECKS = {
          'DESIGN.md section 3 C11'),
  'C13': ('model_checking',
          'explicit-state search over assemble-call histories in one process (forked children of a never-assembled parent); probe bytes vs a fresh interpreter process',
-         'Every history of depth <= 2 over 28 assemble actions (thorough: also depth 3 over a 9-action core) (stl programs at two widths, no-stl, werror, a parse failure '
+         'Every history of depth <= 2 over 29 assemble actions (thorough: also depth 3 over a 9-action core) (stl programs at two widths, no-stl, werror, a parse failure '
          'inside nested namespaces, a lexing error, an unknown macro after the cache was filled, recursion overflow with depth 5, depths '
-         '2000 and 4000, programs defining top-level constants, programs behind a 1- or 2-file stl prefix with one to three user files, a 60 000-label program, a warning-raising program at a fixed path with and without warnings-as-errors, a rep-heavy program, the stl under other short names, a reduced stl built by trimming the list the public get_stl_paths() returned, another user short name, another directory) followed by twenty-two '
-         'probe assemblies (different widths, versions, werror, programs using the constants\' names as labels, expressions nested 400 / 700 deep, a 600-term expression inside a macro with the default and a raised depth (F24), an invalid file list whose user file carries an stl short name, the failing inputs of the history again), rotated so that every probe directly follows every last action: the .fjm and .fjd bytes of every probe must equal those of a brand-new '
+         '2000 and 4000, programs defining top-level constants, programs behind a 1- or 2-file stl prefix with one to three user files, a 60 000-label program, a warning-raising program at a fixed path with and without warnings-as-errors, a rep-heavy program, the stl under other short names, a reduced stl built by trimming the list the public get_stl_paths() returned, another user short name, another directory) followed by twenty-four '
+         'probe assemblies (different widths, versions, werror, programs using the constants\' names as labels, expressions nested 400 / 700 deep, a 600-term expression inside a macro with the default and a raised depth (F24), an invalid file list whose user file carries an stl short name, the failing inputs of the history again, an stl subset whose own parse raises warnings in the strict and the lenient mode), rotated so that every probe directly follows every last action: the .fjm and .fjd bytes of every probe must equal those of a brand-new '
          'interpreter process (two reference processes with different hash seeds and directories must agree as well).',
          'Each history runs in a forked child of a parent that imported flipjump but never assembled. The process-global state key is reported, not used to merge histories.',
          'DESIGN.md section 3 C13'),
@@ -201,7 +201,7 @@ CHECKS = {
          'garbage, continue, the three continue-all spellings incl. mixed case, reads of words / unaligned / unmapped addresses / hex, bit '
          'and byte variables over a data segment with distinctive bits, help, unknown commands, empty lines, quit; running out = EOF) x '
          'every breakpoint subset of size <= 2 of the visited addresses + a never-visited one x 12 programs per width, through '
-         'fjm_run.run(breakpoint_handler=...), plus sessions whose breakpoints are asked for by label (all subsets of 3 existing + 3 unknown labels) and by substring sets (incl. regular-expression metacharacters) - twice on one debug-file path with other addresses -, sessions through the public wrapper flipjump.debug() (addresses / labels / substrings and every mix, also with no debug file and with an empty table), reads of the last word of the address space (a segment ends exactly at 2^w), and reads of the word the program will fault on: pause list (address, ops executed), values shown by reads, quit => keyboard-interrupt at '
+         'fjm_run.run(breakpoint_handler=...), plus sessions whose breakpoints are asked for by label (all subsets of 3 existing + 3 unknown labels) and by substring sets (incl. regular-expression metacharacters, single letters and common words) - twice on one debug-file path with other addresses -, sessions through the public wrapper flipjump.debug() (addresses / labels / substrings and every mix, also with no debug file and with an empty table), reads of the last word of the address space (a segment ends exactly at 2^w), and reads of the word the program will fault on: pause list (address, ops executed), values shown by reads, quit => keyboard-interrupt at '
          'the pause op count, otherwise output / IO calls / cause / op count / final memory equal the undebugged reference run.',
          'Messages are parsed only for addresses, op counts and values. Label / substring breakpoints are resolved in C16.',
          'DESIGN.md section 3 C15'),
